@@ -41,9 +41,12 @@ IDENT_TAIL = re.compile(r"[A-Za-z0-9_]*$")
 
 
 # ------------------------------------------------------------------ rendering
+WIDTH = 4      # indentation width of the program being rendered (4, or 2 for the two-space style)
+
+
 def render_line(l):
     """-> (text, column of n or None, column of u or None)"""
-    ind = " " * (4 * l["d"])
+    ind = " " * (WIDTH * l["d"])
     k, n, u = l["k"], l["n"], l["u"]
     i = len(ind)
     if k == "bind":
@@ -70,6 +73,10 @@ def render_line(l):
         return "%stry:" % ind, None, None
     if k == "fin":
         return "%sfinally: pass" % ind, None, None
+    if k == "if":
+        return "%sif 1:" % ind, None, None
+    if k == "els":
+        return "%selse:" % ind, None, None
     raise ValueError(k)
 
 
@@ -113,7 +120,7 @@ def cpython_crosscheck(beh, src):
         out.append(render_line(l)[0])
         newline_of[i] = len(out)
         if l["k"] in ("def", "class"):
-            out.append(" " * (4 * (l["d"] + 1)) + probe)
+            out.append(" " * (WIDTH * (l["d"] + 1)) + probe)
     out.append(probe)
     top = symtable.symtable("\n".join(out) + "\n", "<c20p>", "exec")
     tables = {0: top}
@@ -181,6 +188,9 @@ def cpython_crosscheck(beh, src):
                 if isinstance(st, ast.Try):          # a block, not a scope
                     yield from stmts(st.body)
                     yield from stmts(st.finalbody)
+                elif isinstance(st, ast.If):
+                    yield from stmts(st.body)
+                    yield from stmts(st.orelse)
                 else:
                     yield st
         for st in stmts(node.body):
@@ -269,7 +279,12 @@ def check_program(item):
     from rope.base import project as project_mod, exceptions
     from rope.contrib import codeassist, findit, fixsyntax
 
+    global WIDTH
     lines, info = beh["lines"], beh["info"]
+    # every third program in the two-space style.  There only the valid text is queried: fixsyntax
+    # repairs with a hard-wired indentation of 4 and the truncated-line oracle would judge that
+    two_space = seed % 3 == 2
+    WIDTH = 2 if two_space else 4
     src, starts, cols = render(lines)
     err = cpython_crosscheck(beh, src)
     if err:
@@ -397,12 +412,12 @@ def check_program(item):
                 strong = False
                 if not at_eof and not header and not weak_prefix:
                     text = src[line_start:line_end]
-                    strong = col <= 4 * l["d"] or any(m.start() <= col <= m.end()
+                    strong = col <= WIDTH * l["d"] or any(m.start() <= col <= m.end()
                                                       for m in re.finditer(r"[A-Za-z_]\w*", text))
                 for mode in ("full", "trunc", "trytail"):
                     if mode == "trytail":
                         # the last line of a try: body, incomplete, and no handler written yet
-                        if at_eof or not inf["tryTail"] or col < 4 * l["d"]:
+                        if at_eof or two_space or not inf["tryTail"] or col < WIDTH * l["d"]:
                             continue
                         fin_end = src.find("\n", line_end + 1)
                         code = src[:off] + src[fin_end:]
@@ -413,7 +428,7 @@ def check_program(item):
                             invalid = True
                         settings = [(True, 1), (False, 1)]
                     elif mode == "trunc":
-                        if at_eof or col < 4 * l["d"]:
+                        if at_eof or two_space or col < WIDTH * l["d"]:
                             continue
                         code = src[:off] + src[line_end:]
                         try:
@@ -433,7 +448,12 @@ def check_program(item):
                             props = codeassist.code_assist(project, code, off, maxfixes=mf, later_locals=later)
                             so = codeassist.starting_offset(code, off)
                         except exceptions.ModuleSyntaxError as e:
-                            if mode == "trunc" and invalid and header:
+                            if mode == "trunc" and invalid and inf["handler"] and col > WIDTH * l["d"]:
+                                # the incomplete line is the handler line of a try: with the line ignored the
+                                # try needs a synthetic handler, nothing else is wrong
+                                fail("RepairPossible", mode, later, mf, off, li,
+                                     {"what": "handler-line", "msg": str(e)[:160], "code": code})
+                            elif mode == "trunc" and invalid and header:
                                 stats["trunc_unrepaired_header"] += 1
                             elif mode == "trytail" and invalid:
                                 # two things are missing (rest of the line, the handler): may need more fixes
@@ -501,11 +521,11 @@ def check_program(item):
             # ---- the same below an unfinished try: block (last body line incomplete, no handler yet):
             # the repaired text has lines inserted above the identifier
             for ti in range(n):
-                if not info[ti]["tryTail"]:
+                if two_space or not info[ti]["tryTail"]:
                     continue
                 t_start, t_end = starts[ti], starts[ti] + len(src[starts[ti]:].split("\n", 1)[0])
                 fin_end = src.find("\n", t_end + 1)
-                body_col = 4 * lines[ti]["d"]
+                body_col = WIDTH * lines[ti]["d"]
                 for cut in sorted({t_end, t_start + body_col + max(1, (t_end - t_start - body_col) // 2)}):
                     code = src[:cut] + src[fin_end:]
                     removed = fin_end - cut
@@ -616,7 +636,10 @@ def main(tier):
     res4, behs4 = run_tlc(7, 2, export=True, tag="t", kinds="MCTryFocusKinds", preludes="MCTryPreludes",
                           hoffsets=(1,))
     print("TLC PyAssist exhaustive (open try blocks):", res4.summary())
-    for r in (res1, res2, res3, res4):
+    res5, behs5 = run_tlc(6, 3, export=True, tag="f", kinds="MCIfFocusKinds", preludes="MCIfPreludes",
+                          hoffsets=(1,))
+    print("TLC PyAssist exhaustive (if/else last in a function):", res5.summary())
+    for r in (res1, res2, res3, res4, res5):
         if not r.ok:
             verdict.machinery_failure("TLC: %s %s\n%s" % (r.violated, r.error, (r.trace or r.tail)[-1500:]))
     if verdict.machinery:
@@ -636,7 +659,9 @@ def main(tier):
     big = [b for b in uniq(behs2) if len(b["lines"]) >= 4]
     imps = [b for b in uniq(behs3) if len(b["lines"]) >= 4 and any(l["k"] == "imp" for l in b["lines"])]
     tries = [b for b in uniq(behs4) if any(i["below"] for i in b["info"])]
-    for lst in (imps, tries):
+    nested = [b for b in behs4 if sum(l["k"] == "try" for l in b["lines"]) >= 2 and not any(i["below"] for i in b["info"])]
+    ifs = [b for b in uniq(behs5) if any(l["k"] == "els" for l in b["lines"])]
+    for lst in (imps, tries, nested, ifs):
         lst.sort(key=lambda b: json.dumps([b["lines"], b["hoff"]], sort_keys=True))
         rnd.shuffle(lst)
     small.sort(key=lambda b: json.dumps([b["lines"], b["hoff"]], sort_keys=True))
@@ -644,12 +669,12 @@ def main(tier):
     rnd.shuffle(small)
     rnd.shuffle(big)
     # prefer programs with nesting
-    nested = [b for b in small if any(l["d"] > 0 for l in b["lines"])]
+    nestd = [b for b in small if any(l["d"] > 0 for l in b["lines"])]
     flat = [b for b in small if not any(l["d"] > 0 for l in b["lines"])]
     if quick:
-        chosen = nested[:120] + flat[:30] + big[:170] + imps[:60] + tries[:70]
+        chosen = nestd[:110] + flat[:30] + big[:160] + imps[:50] + tries[:60] + nested[:30] + ifs[:60]
     else:
-        chosen = nested[:1600] + flat[:200] + big[:2000] + imps[:600] + tries[:800]
+        chosen = nestd[:1600] + flat[:200] + big[:2000] + imps[:600] + tries[:800] + nested[:300] + ifs[:600]
     items = [(b, k) for k, b in enumerate(chosen)]
     totals = {}
     replayed = 0
@@ -679,7 +704,7 @@ def main(tier):
         samples.append({"program": render(chosen[0]["lines"])[0]})
     code = verdict.finish()
     common.write_evidence(PROP, tier, "model_checking", {
-        "states": res1.distinct + res2.generated + res3.generated + res4.distinct,
+        "states": res1.distinct + res2.generated + res3.generated + res4.distinct + res5.distinct,
         "transitions": res1.generated + res2.generated + res3.generated + res4.generated,
         "traces_validated_against_impl": replayed,
         "samples": samples,
@@ -690,6 +715,7 @@ def main(tier):
         "exhaustive": False,
         "tlc_exhaustive": res1.summary(), "tlc_simulation": res2.summary(),
         "tlc_simulation_imports": res3.summary(), "tlc_exhaustive_open_try": res4.summary(),
+        "tlc_exhaustive_if_else": res5.summary(),
         "programs_exported": {"exhaustive": len(behs1), "simulated": len(behs2), "simulated_imports": len(behs3),
                               "open_try": len(behs4)},
         "totals": totals,
